@@ -154,12 +154,25 @@ Definition encode (o : obj) (fuel : nat) : res (list nat) :=
   end.
 
 (* ------------------------------------------------------------------ filterFields *)
-Definition step_except (d : doc) (acc : res obj) (k : key) : res obj :=
-  bind acc (fun o =>
-    match dig d o k with
-    | None => Ok o                               (* Suicide on a nil node is a no-op *)
-    | Some (id, o') => suicide o' id
-    end).
+Definition fld_of (d : doc) (id : nat) : fld := nth id d (0, 0).
+
+(* The statement of the property, as a function (independent of the algorithm below):
+   allow-list keeps exactly the listed fields, block-list exactly the others. *)
+Definition keep (fields : list key) (allow : bool) (f : fld) : bool :=
+  if allow then memb (fst f) fields else negb (memb (fst f) fields).
+
+Definition project (d : doc) (fields : list key) (allow : bool) : doc :=
+  match fields with
+  | [] => d
+  | _ => filter (keep fields allow) d
+  end.
+
+(* both branches of filterFields (since /repo c998f0f the block list mirrors the allow list):
+     for _, field := range decoder.AsFields() { if <listed?> { toRemove = append(toRemove, field.AsFieldValue()) } }
+     for _, n := range toRemove { n.Suicide() }
+   allow-list: collect the fields whose name is NOT listed; block-list: those whose name IS listed *)
+Definition to_remove (d : doc) (fields : list key) (allow : bool) (id : nat) : bool :=
+  if allow then negb (memb (keyof d id) fields) else memb (keyof d id) fields.
 
 Definition step_allow (acc : res obj) (id : nat) : res obj :=
   bind acc (fun o => suicide o id).
@@ -171,29 +184,33 @@ Definition filter_ids (d : doc) (fields : list key) (allow : bool) : res (list n
   | [] => Ok (seq 0 n)                           (* empty filter: document returned as stored *)
   | _ =>
       let o0 := decode n in
-      let r :=
-        if allow then
-          let rm := filter (fun id => negb (memb (keyof d id) fields)) (arr o0) in
-          fold_left step_allow rm (Ok o0)
-        else fold_left (step_except d) fields (Ok o0) in
-      bind r (fun o => encode o (S n))
+      let rm := filter (to_remove d fields allow) (arr o0) in
+      bind (fold_left step_allow rm (Ok o0)) (fun o => encode o (S n))
   end.
-
-Definition fld_of (d : doc) (id : nat) : fld := nth id d (0, 0).
 
 Definition filter_fields (d : doc) (fields : list key) (allow : bool) : res doc :=
   bind (filter_ids d fields allow) (fun ids => Ok (map (fld_of d) ids)).
 
-(* The statement of the property, as a function (independent of the algorithm above):
-   allow-list keeps exactly the listed fields, block-list exactly the others. *)
-Definition keep (fields : list key) (allow : bool) (f : fld) : bool :=
-  if allow then memb (fst f) fields else negb (memb (fst f) fields).
+(* ------------------------------------------------------------------ v0: block list before c998f0f
+     for _, field := range filter.Fields { decoder.Dig(field).Suicide() }
+   Dig returns the FIRST field with that name, so one occurrence is removed per listed name
+   (finding: a document with a repeated key kept an excluded field). Kept to document it. *)
+Definition step_except (d : doc) (acc : res obj) (k : key) : res obj :=
+  bind acc (fun o =>
+    match dig d o k with
+    | None => Ok o                               (* Suicide on a nil node is a no-op *)
+    | Some (id, o') => suicide o' id
+    end).
 
-Definition project (d : doc) (fields : list key) (allow : bool) : doc :=
+Definition filter_ids_except_v0 (d : doc) (fields : list key) : res (list nat) :=
+  let n := length d in
   match fields with
-  | [] => d
-  | _ => filter (keep fields allow) d
+  | [] => Ok (seq 0 n)
+  | _ => bind (fold_left (step_except d) fields (Ok (decode n))) (fun o => encode o (S n))
   end.
+
+Definition filter_fields_except_v0 (d : doc) (fields : list key) : res doc :=
+  bind (filter_ids_except_v0 d fields) (fun ids => Ok (map (fld_of d) ids)).
 
 (* ------------------------------------------------------------------ the pipe in the query *)
 (* tokens after the search expression *)
